@@ -16,6 +16,7 @@ CONSTANTS
   ACTS = {"share", "upd", "upd2"}
   MAXBASE = 1
   MAXLEN = 6
+  BASESET = "small"
   LOOPN = {}
   LOOPEVERY = {}
   LOOPSTYLES = {}
